@@ -674,6 +674,8 @@ def install(eng):
 
     @on(r"^<.* as Default>::default$")
     def _default(call):
+        if eng.resolve(call.callee, call.norm, call.argv) is not None:
+            return NotImplemented        # the crate's own Default impl is executed from its MIR
         return Opaque(call.ret_ty, f"default#{next(eng.fresh_n)}")
 
     @on(r"PhantomData")
